@@ -211,3 +211,7 @@ Fixpoint csets (open : option (nat * list nat)) (tr : list obs) : option (option
       end
   | _ :: r => csets open r
   end.
+
+(* arguments of the calls of a flat trace that ended without error *)
+Definition okargs (tr : list obs) : list nat :=
+  flat_map (fun o => match o with FnEnd _ true set => set | _ => [] end) tr.
